@@ -207,6 +207,14 @@ fn ops_for(kind: &str, inp: &Input, rng: &mut Rng, quick: bool) -> Vec<Op> {
             for a in boundary_lists(rng, n, if quick { 2 } else { 6 }) {
                 ops.push(Op::Count(a));
             }
+            // histories: the marking of a query is inspected (as the CLI's `count` does) between counts
+            for _ in 0..(if quick { 4 } else { 16 }) {
+                let len = 1 + rng.below(3) as usize;
+                ops.push(Op::Marked(random_list(rng, n, len, true)));
+                let len = rng.below(4) as usize;
+                let c = rng.chance(4, 5);
+                ops.push(Op::Count(random_list(rng, n, len, c)));
+            }
         }
         "c03" => {
             if n <= exh {
